@@ -48,9 +48,9 @@ macro_rules! slice_same {
         #[kani::unwind(35)]
         fn $name() {
             let k: [u8; $n] = kani::any();
-            let a = $ty::new(&Array(k));
-            uff::replay_fwd();
             let b = $ty::new_from_slice(&k[..]).unwrap();
+            uff::replay_fwd();
+            let a = $ty::new(&Array(k));
             assert!(uff::done() && uff::calls() >= 4);
             assert!($eq(&a.k, &b.k));
             let s = $mk();
@@ -75,10 +75,12 @@ macro_rules! weak {
         fn $name() {
             let k: [u8; $n] = kani::any();
             assert!($ty::weak_key_test(&Array(k)).is_ok());
-            let plain = $ty::new(&Array(k));
-            uff::replay_fwd();
             match $ty::new_checked(&Array(k)) {
-                Ok(c) => assert!(uff::done() && $eq(&c.k, &plain.k)),
+                Ok(c) => {
+                    uff::replay_fwd();
+                    let plain = $ty::new(&Array(k));
+                    assert!(uff::done() && uff::calls() >= 4 && $eq(&c.k, &plain.k));
+                }
                 Err(_) => assert!(false),
             }
         }
